@@ -542,7 +542,7 @@ class Body:
                         lhs = st["lhs"]
                         if not lhs["p"]:
                             d[lhs["l"]].append((bi, si, "assign", st["rv"]))
-                        else:
+                        elif lhs["p"][0] != "*":
                             d[lhs["l"]].append((bi, si, "partial", st))
                     elif st["k"] == "setdiscr":
                         d[st["lhs"]["l"]].append((bi, si, "partial", st))
@@ -551,7 +551,7 @@ class Body:
                     dst = t["dest"]
                     if not dst["p"]:
                         d[dst["l"]].append((bi, "term", "call", t))
-                    else:
+                    elif dst["p"][0] != "*":
                         d[dst["l"]].append((bi, "term", "partial", t))
             self._defs = d
         return self._defs
@@ -561,6 +561,41 @@ class Body:
         if len(ds) == 1 and not any(x[2] == "partial" for x in self.defs.get(local, [])):
             return ds[0]
         return None
+
+    def canon_place(self, pl):
+        """rewrite a place based on single-definition temporaries (`_t = copy P`, `_t = &P`) into a
+        place over user locals / arguments"""
+        l, proj = pl["l"], list(pl["p"])
+        for _ in range(16):
+            d = self.single_def(l)
+            if not d or d[2] != "assign":
+                break
+            rv = d[3]
+            if rv["k"] == "use" and ("copy" in rv["op"] or "move" in rv["op"]):
+                src = rv["op"].get("copy") or rv["op"].get("move")
+                l, proj = src["l"], list(src["p"]) + proj
+            elif rv["k"] == "ref" and proj and proj[0] == "*":
+                src = rv["place"]
+                l, proj = src["l"], list(src["p"]) + proj[1:]
+            else:
+                break
+        return {"l": l, "p": proj}
+
+    def place_name(self, pl):
+        """user-level name of a place (debug-info name of the longest matching prefix + fields)"""
+        c = self.canon_place(pl)
+        best = None
+        for d in self.j["debug"]:
+            v = d["value"]
+            if "l" not in v or v["l"] != c["l"]:
+                continue
+            n = len(v["p"])
+            if c["p"][:n] == v["p"] and (best is None or n > best[0]):
+                best = (n, d["name"])
+        if best is None:
+            return Place(c).show(self)
+        rest = [p["n"] for p in c["p"][best[0]:] if isinstance(p, dict) and "n" in p]
+        return best[1] + ("." + ".".join(rest) if rest else "")
 
     def calls(self):
         for bi, b in enumerate(self.blocks):
